@@ -291,7 +291,7 @@ def step (s : St) (t : Tok) (next : Option Tok) : Except Err St :=
             stack := s.cur :: s.stack, prev := some t }
     else if has o.ty T.pairEnd then
       match s.stack with
-      | [] => .error .trap
+      | [] => if unmatchedCloserIsError then .error .pairMismatch else .error .trap
       | parent :: rest =>
         -- pushOperator(&opToken); popPair(); closePair(); attachPair(opToken)
         match closeLoop o s.prev (s.cur.out ++ parent.out) (s.cur.ops ++ parent.ops) with
